@@ -168,8 +168,9 @@ def replay_under_hashseeds(meta, traces, wd, seed, rec, out):
 
 
 def _gen_job(args):
-    profile, flavour, seed, length, max_closed, chaos, chunked = args
-    t = gen.trace(profile, flavour, seed, length, max_closed=max_closed, chaos=chaos, chunk_seed=(seed * 7919 + 1) if chunked else None)
+    profile, flavour, seed, length, max_closed, chaos, chunked, cfg = args
+    t = gen.trace(profile, flavour, seed, length, max_closed=max_closed, chaos=chaos, chunk_seed=(seed * 7919 + 1) if chunked else None,
+                  cfg=cfg)
     return t
 
 
@@ -181,8 +182,11 @@ def record_traces(pid, tier, seed):
         n = e['n'][tier]
         for i in range(n):
             mc = e.get('max_closed', [None])
+            cfgs = e.get('cfgs', [None])
+            if tier == 'quick':
+                cfgs = cfgs[:2]
             jobs.append((e['profile'], e['flavour'], seed * 1000003 + i, e['length'][tier], mc[i % len(mc)], e.get('chaos'),
-                         bool(e.get('chunked'))))
+                         bool(e.get('chunked')), cfgs[i % len(cfgs)]))
     if not jobs:
         return []
     ctx = multiprocessing.get_context('fork')
